@@ -173,7 +173,7 @@ def run(tier: str, seed: int) -> Tuple[Stats, str, List[str], Dict[str, Any]]:
         for k, v in out.items():
             stats.outcome(k, v)
         for (i, j, why) in bad:
-            if len(stats.violations) < 100:
+            if stats.room({"check": why.split(",")[0][:40]}, 100):
                 stats.violations.append(Violation(f"C20 {specs[i]} vs {specs[j]}: {why}",
                                                   {"a": specs[i], "b": specs[j], "why": why, "same_identity": idents[i] == idents[j]},
                                                   {"check": why.split(",")[0][:40]}))
